@@ -198,6 +198,9 @@ func StartRNode(r *R, nw *simnet.Net, tag int, addr string, o RNodeOpt) *RNode {
 			case ves.RemotingMessageDecodeFailedEvent:
 				n.mu.Lock()
 				n.decodeFailed++
+				if n.decodeFailed <= 3 {
+					r.Note("decode failed at %s: %d bytes from %s: %v", n.Addr, m.MessageSize, m.RemoteAddr, m.Error)
+				}
 				n.mu.Unlock()
 			case ves.RemotingConnectionFailedEvent:
 				n.mu.Lock()
